@@ -428,6 +428,16 @@ def Mut.name : Mut → String
 def dictMutators : List String :=
   ["__setitem__", "__delitem__", "__ior__", "update", "setdefault", "pop", "popitem", "clear"]
 
+/-- the other methods of `dict`: readers, comparisons, constructors of NEW objects (`copy`, `fromkeys`, `__or__`,
+    `__ror__`), and `__new__` / `__init__` (creating an object; re-running `__init__` on an existing FrozenDict is
+    not an operation of the statement).  Together with `dictMutators` this must cover every method the running
+    interpreter's `dict` has (`Generated.dictMethods`): a Python that grows a new mutating method shows up as a
+    failed obligation, not as a silently unblocked mutator. -/
+def dictNonMutators : List String :=
+  ["__new__", "__init__", "__repr__", "__getattribute__", "__lt__", "__le__", "__eq__", "__ne__", "__gt__", "__ge__",
+   "__iter__", "__or__", "__ror__", "__len__", "__getitem__", "__contains__", "__sizeof__", "get", "keys", "items",
+   "values", "fromkeys", "copy", "__reversed__", "__class_getitem__"]
+
 /-- what the inherited `dict` method would do (used for a method the class does NOT block) -/
 def dictMut (d : Dict Nat FVal) : Mut → Dict Nat FVal × Ret FVal
   | .setitem k v => (put k v d, .none)
